@@ -156,6 +156,7 @@ func RunCoh(c *core.Ctx) {
 				c.Check(proto.Equal(req, fdp), "COH.rawdesc", con, "embedded descriptor equals the schema given to the generator (options included)", "embedded descriptor differs from the schema given to the generator", "", src)
 			} else {
 				c.Ok("COH.rawdesc", con, "embedded descriptor parses and links ("+fdp.GetName()+")", "", src)
+				checkProtoSource(c, g, v, fdp)
 			}
 		}
 		// ---- per file tables
